@@ -5,6 +5,7 @@ import (
 	"encoding/binary"
 	"encoding/hex"
 	"fmt"
+	"io"
 	"os"
 	"sync/atomic"
 
@@ -226,7 +227,15 @@ func (mdb *MassDBV1) plotWork(cache *MemCache) error {
 		bufRdA := bufio.NewReaderSize(hmA.data, minMapABufMem)
 
 		for y := pocutil.PoCValue(0); y < half; y++ {
-			bufRdA.Read(bs)
+			// a pair may straddle two fills of the read buffer: read it completely (a short
+			// read would shift every later pair); past the end of table A the slots are empty
+			n, err := io.ReadFull(bufRdA, bs)
+			if err != nil && err != io.EOF && err != io.ErrUnexpectedEOF {
+				return err
+			}
+			for i := n; i < len(bs); i++ {
+				bs[i] = 0
+			}
 			x, xp := bs[:recordSize], bs[recordSize:]
 			if !bytesEqualZero(x) && !bytesEqualZero(xp) {
 				z := pocutil.FB(x, xp, bl, pkHash)
